@@ -99,14 +99,16 @@ def build():
     common = dict(returns=KS, spec_env=ENV, keyed=KEYED, local_types={"added": KS}, props=["C16"])
     add = Contract(OPS + "add_terms", params={"terms_left": KS, "terms_right": KS},
                    loops={0: {"inv": [
-                       "forall(lambda f=FactorKey: (f in keys(added)) == (f in keys(terms_left)[:_i]))",
+                       "forall(lambda f=FactorKey: implies(f in keys(added), f in keys(terms_left)[:_i]))",
+                       "forall(lambda f=FactorKey: implies(f in keys(terms_left)[:_i], f in keys(added)))",
                        "forall(lambda f=FactorKey: implies(f in keys(added), coef(added, f) == coef(terms_left, f) + coef(terms_right, f)))",
                    ]}},
                    ensures=["forall(lambda f=FactorKey: coef(result, f) == coef(old_terms_left, f) + coef(old_terms_right, f))"], **common)
     cs.append(add)
     sub = Contract(OPS + "sub_terms", params={"terms_left": KS, "terms_right": KS}, calls={"negate_terms": negate},
                    loops={0: {"inv": [
-                       "forall(lambda f=FactorKey: (f in keys(added)) == (f in keys(terms_left)[:_i]))",
+                       "forall(lambda f=FactorKey: implies(f in keys(added), f in keys(terms_left)[:_i]))",
+                       "forall(lambda f=FactorKey: implies(f in keys(terms_left)[:_i], f in keys(added)))",
                        "forall(lambda f=FactorKey: implies(f in keys(added), coef(added, f) == coef(terms_left, f) - coef(terms_right, f)))",
                    ]}},
                    ensures=["forall(lambda f=FactorKey: coef(result, f) == coef(old_terms_left, f) - coef(old_terms_right, f))"], **common)
